@@ -2,7 +2,7 @@
 import math, struct
 import numpy as np
 from vp.coqrun import fl, zl, flist, zlist, blist, clist, parse_zlist
-from vp import srcparams
+from vp import srcparams, link
 import umap.layouts as L
 import umap.umap_ as U
 from umap.utils import tau_rand_int
@@ -120,6 +120,11 @@ def rngl(R):
 
 def run(ctx):
     ctx.check_proofs(["prop/P_C07.v"])
+    # translation tie: clip, rdist (layouts.py) and tau_rand_int, norm (utils.py) regenerated from the current source;
+    # link theorems: translated source = model/M_sgd.v definitions (tau_rand_int by reflexivity: same term)
+    link.check(ctx, "layouts", {"clip": "src_clip_eq", "rdist": "src_rdist_eq"},
+               {"_optimize_layout_euclidean_single_epoch": "mutates array views (current = head_embedding[j]); outside the py2coq subset: tied by the per-epoch correspondence"})
+    link.check(ctx, "utils", {"tau_rand_int": "src_tau_rand_int_eq", "norm": "src_norm_eq"})
     rng = ctx.rng
     npr = np.random.RandomState(rng.randrange(2 ** 31))
     hdr = ("From Coq Require Import List ZArith PrimFloat. From UV Require Import Num FNum M_sgd V_sgd.\n"
